@@ -65,6 +65,8 @@ def findClassX : List Val → R Val
 def extX (f : String) (args : List Val) : R Val :=
   if f = "sqlbuilder.sqlrepr" then sqlreprX args
   else if f = "findClass" then findClassX args
+  else if f = "events.CreateTableSignal" then .ok (.str [])      -- the signal objects are only handed to `send`
+  else if f = "events.DropTableSignal" then .ok (.str [])
   else .stuck
 
 def fieldBool (v : Val) (a : String) : R Val :=
@@ -196,5 +198,61 @@ def colV (T : Tables) (st : Style) (table : Str) (conn0 : Val) (col : Col) : Val
   .obj (clsOf col.kind) (kindFields T col.kind ++ commonFields st table conn0 col)
 
 def strList (l : List Str) : Val := .list (l.map .str)
+
+/-! ### joins, indexes and the class object -/
+
+/-- what `_getJoinsToCreate` reads of a join object -/
+structure JoinD where
+  hasInter : Bool                 -- `join.hasIntermediateTable()`
+  createRel : Option Bool         -- the attribute `createRelatedTable`, if there is one
+  selfName : Str                  -- `join.soClass.__name__`
+  otherName : Str                 -- `join.otherClass.__name__`
+  join : Join                     -- intermediateTable, joinColumn, otherColumn
+
+def nameV (s : Str) : Val := .obj C_SQLObject [("__name__", .str s)]
+
+def jV (j : JoinD) : Val :=
+  .obj C_SQLObject ([("intermediateTable", .str j.join.table), ("joinColumn", .str j.join.joinColumn),
+    ("otherColumn", .str j.join.otherColumn), ("hasInter", .bool j.hasInter), ("soClass", nameV j.selfName),
+    ("otherClass", nameV j.otherName)] ++
+    match j.createRel with
+    | none => []
+    | some b => [("createRelatedTable", .bool b)])
+
+/-- an entry of `sqlmeta.joins` (`None` = a deleted join) -/
+def joV : Option JoinD → Val
+  | none => .none
+  | some j => jV j
+
+def idSizeV : IdSize → Val
+  | .none => .none
+  | .tiny => .str [84, 73, 78, 89]
+  | .small => .str [83, 77, 65, 76, 76]
+  | .medium => .str [77, 69, 68, 73, 85, 77]
+  | .big => .str [66, 73, 71]
+
+/-- an index object (`SODatabaseIndex`): plain columns only (no expressions, no MySQL prefix lengths) -/
+def ixV (decl : Decl) (ix : Index) : Val :=
+  .obj C_SODatabaseIndex [("name", .str ix.name), ("unique", .bool ix.unique),
+    ("descriptions", .list ((indexCols decl ix).map fun db =>
+      Val.dict [(.str [99, 111, 108, 117, 109, 110], .obj C_SOCol [("dbName", .str db)])])),
+    ("soClass", ownerV decl.tableName)]
+
+/-- what the declaration does not say: the joins of the class and its default connection -/
+structure ClsX where
+  joins : List (Option JoinD)
+  conn : Val
+
+/-- `soClass.sqlmeta` -/
+def metaV (decl : Decl) (c0 : Val) (x : ClsX) : Val :=
+  .obj C_SQLObject [("table", .str decl.tableName), ("idName", .str decl.idCol), ("idType", idTypeV decl.idStr),
+    ("idSize", idSizeV decl.idSize),
+    ("columnList", .list (decl.cols.map (colV Ddl.Extracted.tables decl.style decl.tableName c0))),
+    ("joins", .list (x.joins.map joV)), ("indexes", .list (decl.indexes.map (ixV decl)))]
+
+/-- the class being created -/
+def soClassV (decl : Decl) (c0 : Val) (x : ClsX) : Val :=
+  .obj C_SQLObject [("sqlmeta", metaV decl c0 x), ("_connection", x.conn)]
+
 
 end SqlObjVerif.DdlX
